@@ -1578,7 +1578,14 @@ func callBin(n *node) {
 	}
 
 	// Determine if we should use `Call` or `CallSlice` on the function Value.
-	callFn := func(v reflect.Value, in []reflect.Value) []reflect.Value { return v.Call(in) }
+	callFn := func(v reflect.Value, in []reflect.Value) []reflect.Value {
+		if t := v.Type(); t.IsVariadic() && len(in) == t.NumIn()-1 {
+			// No argument for the variadic parameter: it is nil, as in a compiled call
+			// (reflect.Call would pass an empty, non-nil slice).
+			return v.CallSlice(append(in, reflect.Zero(t.In(t.NumIn()-1))))
+		}
+		return v.Call(in)
+	}
 	if n.action == aCallSlice {
 		callFn = func(v reflect.Value, in []reflect.Value) []reflect.Value { return v.CallSlice(in) }
 	}
